@@ -355,6 +355,33 @@ func blobStream(rng *vRNG, c detConfig, n int, pReset int) []detFrame {
 	return out
 }
 
+// sceneStepStream: the whole scene steps between far-apart levels (plus sparse noise), so
+// that per-frame totals over a Boson-sized interior exceed 2^31 and 2^32.
+func sceneStepStream(rng *vRNG, c detConfig, n int) []detFrame {
+	levels := []int{3000, 31000, 62000, 20000, 48000, 65535, 0}
+	out := []detFrame{}
+	t := time.Minute
+	lvl := levels[rng.Intn(len(levels))]
+	for i := 0; i < n; i++ {
+		if rng.Chance(60) {
+			lvl = levels[rng.Intn(len(levels))]
+		}
+		pix := make([][]uint16, c.H)
+		for y := range pix {
+			pix[y] = make([]uint16, c.W)
+			for x := range pix[y] {
+				pix[y][x] = uint16(lvl)
+			}
+		}
+		for k := rng.Range(0, 5); k > 0; k-- {
+			pix[rng.Range(0, c.H-1)][rng.Range(0, c.W-1)] = uint16(rng.Intn(65536))
+		}
+		t += time.Second / time.Duration(c.FPS)
+		out = append(out, detFrame{Pix: pix, TimeOn: t, LastFFC: 0})
+	}
+	return out
+}
+
 func pixHash(h *vHash, p [][]uint16) {
 	for _, row := range p {
 		for _, v := range row {
